@@ -935,4 +935,130 @@ theorem pn_head_lparen {env : List Entry} {l : List PTok} {ks : List Tok} (h : P
     rcases hx with hx | hx | hx <;> rw [hx] at this <;> cases this
 
 
+/-! ## pieces of the `invoke` case -/
+
+/-- `WFMacro` without "no `##`" -/
+structure WFMacroP (m : Macro) : Prop where
+  noHash : ∀ t ∈ m.body, t.tok ≠ .hashhash
+  noParamName : ∀ t ∈ m.body, ∀ s, t.tok = .id s → ∀ i, s ≠ paramName i
+  argRange : ∀ t ∈ m.body, ∀ i, t.tok = .arg i → i < m.numParams ∧ m.isFunction = true
+
+theorem wfP_disable {env : List Entry} {mi : Nat} (h : ∀ e ∈ env, WFMacroP e.m) :
+    ∀ e ∈ disable env mi, WFMacroP e.m := by
+  intro e he
+  obtain ⟨e0, he0, hm, _⟩ := mem_disable he
+  rw [hm]; exact h e0 he0
+
+theorem mem_pasteParams_arg (mb : List PTok) : ∀ (prev : Option Tok) (i : Nat), i ∈ pasteParams prev mb →
+    ∃ t ∈ mb, t.tok = .arg i := by
+  induction mb with
+  | nil => intro prev i h; simp [pasteParams] at h
+  | cons t r ih =>
+    intro prev i h
+    rw [pasteParams] at h
+    split at h
+    · rename_i j hj
+      split at h
+      · rcases List.mem_cons.mp h with rfl | h
+        · exact ⟨t, by simp, hj⟩
+        · obtain ⟨x, hx, hxk⟩ := ih _ i h; exact ⟨x, by simp [hx], hxk⟩
+      · obtain ⟨x, hx, hxk⟩ := ih _ i h; exact ⟨x, by simp [hx], hxk⟩
+    · obtain ⟨x, hx, hxk⟩ := ih _ i h; exact ⟨x, by simp [hx], hxk⟩
+
+/-- the token at the end of the expanded replacement list is kept when the rest of the source follows it -/
+theorem keep_tailP {env : List Entry} {n : String} {mi : Nat} {e : Entry} (hsel : Selects env n mi e)
+    (Rs r0 : List HTok) (g : HTok) (R rest' : List PTok) (lrest : List HTok)
+    (hRs : Rs = r0 ++ [g]) (hroR : RelOut (disable env mi) Rs R) (hkeep : KeepS (specTable env) g [])
+    (hnf : NoFire env mi R rest') (hrest : PN env rest' (lrest.map (·.tok))) :
+    KeepS (specTable env) g lrest := by
+  intro x hx
+  rcases hkeep x hx with h | h | ⟨m, ps, hfind, hpar, _⟩
+  · exact Or.inl h
+  · exact Or.inr (Or.inl h)
+  · by_cases hlp : ∃ h rest'', lrest = ⟨.lparen, h⟩ :: rest''
+    · left
+      obtain ⟨h0, rest'', hl⟩ := hlp
+      have hsp : startsParen rest' = true := by
+        unfold startsParen
+        rw [pn_head_lparen hrest (rest''.map (·.tok)) (by rw [hl]; rfl)]
+        rfl
+      obtain ⟨ex, hex, hm, hname⟩ := find_specTable_some hfind
+      have hfn : ex.m.isFunction = true := by
+        rw [hm] at hpar
+        cases hf : ex.m.isFunction with
+        | true => rfl
+        | false => simp [ofMacro, hf] at hpar
+      obtain ⟨j, hj⟩ := List.mem_iff_getElem?.mp hex
+      have hpp : ppTokens R = r0.map (·.tok) ++ [Tok.id x] := by
+        rw [← hroR.toks, hRs, List.map_append, List.map_cons, hx]; rfl
+      obtain ⟨R0, b, R1, hR, hws⟩ := last_tok_split R _ _ hpp
+      have hg : g ∈ Rs := by rw [hRs]; simp
+      have hin : x ∈ g.hide := by
+        apply hroR.sup g hg
+        rw [disabledNames_disable hsel.get]
+        rcases hnf R0 x b R1 hR hws hsp j ex hj hname hfn with hd | hjm
+        · exact Or.inr (mem_disabledNames.mpr ⟨ex, hex, hd, hname⟩)
+        · subst hjm
+          rw [hsel.get] at hj
+          cases hj
+          exact Or.inl hname.symm
+      simpa using hin
+    · right; right
+      exact ⟨m, ps, hfind, hpar, fun h rest'' heq => hlp ⟨h, rest'', heq⟩⟩
+
+theorem invoke_tailP {env : List Entry} {n : String} {mi : Nat} {e : Entry} (hsel : Selects env n mi e)
+    (b Rs : List HTok) (R rest' out : List PTok) (lrest r2 : List HTok)
+    (hsR : SExp (specTable env) b Rs) (hroR : RelOut (disable env mi) Rs R) (hnf : NoFire env mi R rest')
+    (hs2 : SExp (specTable env) lrest r2) (hro2 : RelOut env r2 out) (hrest : PN env rest' (lrest.map (·.tok))) :
+    SExp (specTable env) (b ++ lrest) (Rs ++ r2) ∧ RelOut env (Rs ++ r2) (R ++ out) := by
+  obtain ⟨r0, tail, hRs, hlen, hkeep, hctx⟩ := sexp_context hsR
+  have htail : SExp (specTable env) (tail ++ lrest) (tail ++ r2) := by
+    cases tail with
+    | nil => exact hs2
+    | cons g tl =>
+      have : tl = [] := by
+        cases tl with
+        | nil => rfl
+        | cons _ _ => simp at hlen
+      subst this
+      exact SExp.keep g lrest r2
+        (keep_tailP hsel Rs r0 g R rest' lrest hRs hroR (hkeep g (by simp)) hnf hrest) hs2
+  have h1 := hctx lrest (tail ++ r2) htail
+  rw [← List.append_assoc, ← hRs] at h1
+  refine ⟨h1, ?_, ?_⟩
+  · rw [List.map_append, ppTokens_append, hroR.toks, hro2.toks]
+  · intro t ht x hx
+    rcases List.mem_append.mp ht with h | h
+    · apply hroR.sup t h
+      rw [disabledNames_disable hsel.get]
+      exact Or.inr hx
+    · exact hro2.sup t h x hx
+
+/-- what `subst_paste` returns is related to the replacement list as the model substituted it -/
+theorem relP_body {env : List Entry} {n : String} {mi : Nat} {e : Entry} (hsel : Selects env n mi e)
+    (hsNew : List String) (out : List HTok) (body' : List PTok)
+    (hsup : ∀ x, (x = n ∨ x ∈ disabledNames env) → x ∈ hsNew)
+    (hsub : ∀ x ∈ hsNew, x = n ∨ x ∈ disabledNames env)
+    (hpn : PN (disable env mi) body' (out.map (·.tok)))
+    (hgood : ∀ s ∈ out, GoodItem (disable env mi) (.tok s)) :
+    RelP (disable env mi) (out.map (fun s => ⟨s.tok, s.hide ++ hsNew⟩)) body' := by
+  have hdn : ∀ x, x ∈ disabledNames (disable env mi) ↔ x = n ∨ x ∈ disabledNames env := by
+    intro x; rw [disabledNames_disable hsel.get, hsel.name]
+  refine ⟨?_, ?_, ?_⟩
+  · simpa [List.map_map, Function.comp_def] using hpn
+  · intro t ht x hx
+    obtain ⟨s, _, rfl⟩ := List.mem_map.mp ht
+    exact List.mem_append_right _ (hsup x ((hdn x).mp hx))
+  · intro t ht k hk hen y hy
+    obtain ⟨s, hs, rfl⟩ := List.mem_map.mp ht
+    simp only at hk hy
+    rcases hgood s hs with h | h
+    · rw [h, List.nil_append] at hy
+      exact (hdn y).mpr (hsub y hy)
+    · exfalso
+      obtain ⟨e', he', hname, hen'⟩ := hen
+      have := h k hk e' he' hname
+      rw [this] at hen'; cases hen'
+
+
 end RsslVerif.Lemmas.MacroTamePSpec
